@@ -166,7 +166,7 @@ LEVEL_TEXT.update({
     "C18": "Exploration with an exhaustively executed domain: every (year, month, day) accepted by Date::new and every (hour, minute, second, 10 ms step) (+9 ms offsets) is set on a file, flushed, re-listed and compared with the specification's bit layout in the raw entry; stamping rules are monitored on random histories under a deterministic, logging time provider (access-date option on and off).",
 })
 LEVEL_TEXT.update({
-    "C09": "Fault enumeration: for 44 representative operations on four volume geometries (FAT12/16/32) every device-call index k of the operation is failed once (exhaustive single-fault enumeration; thorough adds per-kind enumeration), the result of the public call is compared with the injected error code, destructor-issued calls are exempted through the drop-depth hook, a device-call budget of 20x the fault-free count detects non-termination, destructors after the failed call run under the same budget.",
+    "C09": "Fault enumeration: for 44 representative operations on four volume geometries (FAT12/16/32) every device-call index k of the operation is failed once (exhaustive single-fault enumeration; thorough adds per-kind enumeration), under the default mount options and under strict(false) / update_accessed_date(true) mounts (mount, unmount and drop under all four combinations; the others under the default and one rotating alternative in the quick tier, all four in the thorough tier), the result of the public call is compared with the injected error code, destructor-issued calls are exempted through the drop-depth hook, a device-call budget of 20x the fault-free count detects non-termination, destructors after the failed call run under the same budget.",
     "C14": "Fault enumeration over crash points: random histories are journaled (every device write with payload, every device flush); for every call the image is rebuilt after each of its device writes (strided above 96 writes per call) and every file that was durable before the call and is not touched by it must read back exactly through a fresh mount; at every flush/drop of a file handle no device write may be younger than the last device flush.",
 })
 LEVEL_TEXT.update({
